@@ -133,3 +133,53 @@ fix_sign_good_square (mpq_ptr d, mpq_srcptr s)
   if (SIZ (mpq_denref (d)) == 0)
     DIVIDE_BY_ZERO;
 }
+
+/* R-DENONE positive: zero result, denominator size 1 but its limb untouched */
+void
+fix_denone_bad (mpq_ptr q, mpq_srcptr a)
+{
+  if (SIZ (mpq_numref (a)) == 0)
+    {
+      SIZ (mpq_numref (q)) = 0;
+      SIZ (mpq_denref (q)) = 1;
+      return;
+    }
+  mpq_set (q, a);
+}
+
+/* positive: one path forgets */
+void
+fix_denone_bad_path (mpq_ptr q, mpq_srcptr a, int flag)
+{
+  SIZ (mpq_numref (q)) = 0;
+  SIZ (mpq_denref (q)) = 1;
+  if (flag)
+    PTR (mpq_denref (q))[0] = 1;
+}
+
+/* negative */
+void
+fix_denone_good (mpq_ptr q, mpq_srcptr a)
+{
+  SIZ (mpq_numref (q)) = 0;
+  q->_mp_den._mp_d[0] = 1;
+  q->_mp_den._mp_size = 1;
+}
+
+/* negative: through a local limb pointer, written before the size */
+void
+fix_denone_good_alias (mpq_ptr q, mpq_srcptr a)
+{
+  mp_ptr dp = PTR (mpq_denref (q));
+  dp[0] = 1;
+  SIZ (mpq_numref (q)) = 0;
+  SIZ (mpq_denref (q)) = 1;
+}
+
+/* negative: the mpz function sets size and limb */
+void
+fix_denone_good_setui (mpq_ptr q, mpq_srcptr a)
+{
+  SIZ (mpq_numref (q)) = 0;
+  mpz_set_ui (mpq_denref (q), 1);
+}
